@@ -19,6 +19,10 @@ type Subscription struct {
 	sub   Subscriber
 	field *Field
 	args  map[string]interface{}
+
+	// vars are the variable values of the subscription request. The
+	// selection set is evaluated with them for every event.
+	vars map[string]interface{}
 }
 
 // NewSubscription creates a new subscription. It should be called in a
